@@ -228,7 +228,7 @@ def extStartOps (critical : Bool) (oid : List Nat) : List Op :=
 def extOps : XExt → List Op
   | .basic isCa path =>
     extStartOps true OID_BASIC_CONSTRAINTS ++ [.startSeq] ++ (if isCa then [.bool true] else []) ++
-      (match path with | some len => [.integer [len]] | none => []) ++ [.endSeq, .endOstr, .endSeq]
+      (match path with | some len => [.integer (pathInt len)] | none => []) ++ [.endSeq, .endOstr, .endSeq]
   | .keyUsage v => extStartOps true OID_KEY_USAGE ++ [.bitstr true (keyUsageBytes v), .endOstr, .endSeq]
   | .extKeyUsage l => extStartOps true OID_EXT_KEY_USAGE ++ [.startSeq] ++ l.flatMap ekuOps ++ [.endSeq, .endOstr, .endSeq]
   | .subjKeyId b => extStartOps false OID_SUBJ_KEY_IDENTIFIER ++ [.ostr b, .endOstr, .endSeq]
@@ -749,6 +749,12 @@ theorem known_pack (e : XExt) (c : Bool) (x : XExt) (d : Der) (h1 : (extNode e).
     ∃ ds v, (extNode e).toDer = some ds ∧ mapO parseExt ds = some [v] ∧ e.view = some v :=
   ⟨[d], { critical := c, ext := x }, h1, by simp [mapO, h2], hv⟩
 
+theorem parsePathLen_pathInt (p : Nat) : parsePathLen (pathInt p) = some p := by
+  unfold pathInt
+  split
+  · rename_i h; simp [parsePathLen]; omega
+  · rename_i h; simp [parsePathLen]; omega
+
 theorem ext_parse (e : XExt) (hw : e.WF) (hl : (extNode e).lenOk) :
     ∃ ds v, (extNode e).toDer = some ds ∧ mapO parseExt ds = some [v] ∧ e.view = some v := by
   cases e with
@@ -760,10 +766,10 @@ theorem ext_parse (e : XExt) (hw : e.WF) (hl : (extNode e).lenOk) :
         (by simp [extOfDer])
       exact known_pack _ _ _ d h1 h2 (by simp [XExt.view, XExt.critical])
     · rename_i p
-      obtain ⟨d, h1, h2⟩ := known_parse true OID_BASIC_CONSTRAINTS (seq [.prim 0x02 [p]]) (.cons 0x30 [.prim 0x02 [p]])
+      obtain ⟨d, h1, h2⟩ := known_parse true OID_BASIC_CONSTRAINTS (seq [.prim 0x02 (pathInt p)]) (.cons 0x30 [.prim 0x02 (pathInt p)])
         (.basic false (some p))
         (by decide) (by simp [seq, Node.toDer, Node.toDerL, tagConstructed]) hl' (by simp [seq, Node.tagsOk, Node.tagsOkL]; decide)
-        (by simp [extOfDer])
+        (by simp [extOfDer, parsePathLen_pathInt])
       exact known_pack _ _ _ d h1 h2 (by simp [XExt.view, XExt.critical])
     · obtain ⟨d, h1, h2⟩ := known_parse true OID_BASIC_CONSTRAINTS (seq [.prim 0x01 [0xFF]]) (.cons 0x30 [.prim 0x01 [0xFF]])
         (.basic true none)
@@ -771,10 +777,10 @@ theorem ext_parse (e : XExt) (hw : e.WF) (hl : (extNode e).lenOk) :
         (by simp [extOfDer])
       exact known_pack _ _ _ d h1 h2 (by simp [XExt.view, XExt.critical])
     · rename_i p
-      obtain ⟨d, h1, h2⟩ := known_parse true OID_BASIC_CONSTRAINTS (seq [.prim 0x01 [0xFF], .prim 0x02 [p]])
-        (.cons 0x30 [.prim 0x01 [0xFF], .prim 0x02 [p]]) (.basic true (some p))
+      obtain ⟨d, h1, h2⟩ := known_parse true OID_BASIC_CONSTRAINTS (seq [.prim 0x01 [0xFF], .prim 0x02 (pathInt p)])
+        (.cons 0x30 [.prim 0x01 [0xFF], .prim 0x02 (pathInt p)]) (.basic true (some p))
         (by decide) (by simp [seq, Node.toDer, Node.toDerL, tagConstructed]) hl' (by simp [seq, Node.tagsOk, Node.tagsOkL]; decide)
-        (by simp [extOfDer])
+        (by simp [extOfDer, parsePathLen_pathInt])
       exact known_pack _ _ _ d h1 h2 (by simp [XExt.view, XExt.critical])
   | keyUsage v =>
     have hl' := known_lenOk _ _ _ hl
